@@ -373,6 +373,12 @@ static void finish(char const* status)
         monitor("directed probe: every worker was held between its store of `sleeping` and the condition-variable wait "
                 "until stop() had sent all its notifications; stop() never returns (lost wake-up in stop_locked)");
     }
+    else if (!ok && std::strncmp(status, "crash", 5) == 0)
+    {
+        // an exception escaped from a life-cycle call: not a hang - the message must not carry a "stuck in" signature
+        // (a listed liveness finding would otherwise hide it)
+        monitor(std::string("a life-cycle call threw (see the exception above); last call: ") + std::string(g_where));
+    }
     else if (!ok)
     {
         long n = g_ids.load();
